@@ -16,6 +16,8 @@ import (
 	"strings"
 	"time"
 
+	"github.com/elastic/go-libaudit/v2/auparse"
+
 	"github.com/metal-toolbox/audito-maldito/verifharness/l1"
 )
 
@@ -57,10 +59,11 @@ type Rec struct {
 func runOne(id int, sc Scenario, seed int64) Rec {
 	rec := Rec{Mode: "stepwise", ID: id, Shapes: sc.Shapes, Order: sc.Order, Fault: sc.Fault, Obs: Obs{Events: []ObsEvent{}}}
 	failAt := 0
-	if sc.Fault.Kind == "writefail" {
+	if sc.Fault.Kind == "writefail" || sc.Fault.Kind == "writefailp" {
 		failAt = 1 + sc.Fault.At // one write for the session's own LOGIN record
 	}
 	l := l1.NewL2(seed, failAt)
+	l.W.Enc.Persistent = sc.Fault.Kind == "writefailp"
 	defer l.Close()
 	// correlate one session
 	if ok, _ := l.Apply(l1.Call{K: "login", ID: 1, Pid: 1}); !ok {
@@ -93,7 +96,7 @@ func runOne(id int, sc Scenario, seed int64) Rec {
 		}
 		return fmt.Sprintf("type=PROCTITLE msg=%s: proctitle=6C73", st)
 	}
-	badline := fmt.Sprintf("this is not an audit record %d-%d", id, seed%1000)
+	badline := malformed(id, seed)
 	alive := true
 	for i := 0; i <= len(sc.Order) && alive; i++ {
 		pos := i + 1
@@ -134,6 +137,32 @@ func runOne(id int, sc Scenario, seed int64) Rec {
 	}
 	observe(&rec, l, badline)
 	return rec
+}
+
+// malformed returns a line the audit parser (auparse, the dependency) rejects; several classes of such lines.
+func malformed(id int, seed int64) string {
+	u := fmt.Sprintf("%d-%d", id, seed%1000)
+	cands := []string{
+		"this is not an audit record " + u,
+		"type=FOO" + u + " msg=audit(1668460768.196:30166): pid=1 a=b",
+		"e=SYSCALL msg=audit(1668460768.196:30166): arch=c000003e syscall=59 u=" + u,
+		"type=SYSCALL msg=audit(abc:1): arch=c000003e u=" + u,
+		" " + u[:0] + " ",
+		"type=UNKNOWN[13x9] msg=audit(1668460768.196:30166): a=" + u,
+		"type=SYSCALL msg=audit(1668460768.196:99999999999999999999): a=" + u,
+		"\x00\xff garbage msg=audit(1668460768.196:30166): a=" + u,
+		"type=SYSCALL",
+		"msg=audit(1668460768.196:30166): a=" + u,
+		"# comment " + u,
+		"\ttype=SYSCALL msg=audit(oops): " + u,
+	}
+	for k := 0; k < len(cands); k++ {
+		c := cands[(id+k)%len(cands)]
+		if _, err := auparse.ParseLogLine(c); err != nil {
+			return c
+		}
+	}
+	return cands[0]
 }
 
 func observe(recp *Rec, l *l1.L2, badline string) {
@@ -207,7 +236,7 @@ func scenarioLines(id int, sc Scenario, seed int64, sess string) feed {
 		}
 		return fmt.Sprintf("type=PROCTITLE msg=%s: proctitle=6C73", st)
 	}
-	f := feed{badline: fmt.Sprintf("this is not an audit record %d-%d", id, seed%1000)}
+	f := feed{badline: malformed(id, seed)}
 	for i := 0; i <= len(sc.Order); i++ {
 		pos := i + 1
 		if sc.Fault.Kind == "malformed" && sc.Fault.At == pos {
@@ -241,10 +270,11 @@ func setup(l *l1.L2) (string, bool) {
 func runBacklog(id int, sc Scenario, seed int64) Rec {
 	rec := Rec{Mode: "backlog", ID: id, Shapes: sc.Shapes, Order: sc.Order, Fault: sc.Fault, Obs: Obs{Events: []ObsEvent{}}}
 	failAt := 0
-	if sc.Fault.Kind == "writefail" {
+	if sc.Fault.Kind == "writefail" || sc.Fault.Kind == "writefailp" {
 		failAt = 1 + sc.Fault.At
 	}
 	l := l1.NewL2Buf(seed, failAt, 64, true)
+	l.W.Enc.Persistent = sc.Fault.Kind == "writefailp"
 	defer l.Close()
 	sess, ok := setup(l)
 	if !ok {
